@@ -537,7 +537,7 @@ theorem tblLoop_step (f : Nat) (value : Bytes) (fin offset : Nat) (acc : List (S
   simp only [hlt, if_true, hdrop, hkl, hs, hkey, hd2, hemb, bind, Except.bind]
 
 theorem tblLoop_done (f : Nat) (value : Bytes) (fin offset : Nat) (acc : List (Str × PyVal))
-    (h : ¬ offset < fin) : Decode.tblLoop (f + 1) value fin offset acc = .ok (fin, .dict acc) := by
+    (h : ¬ offset < fin) : Decode.tblLoop (f + 1) value fin offset acc = .ok (offset, .dict acc) := by
   rw [Decode.tblLoop]; simp only [h, if_false]
 
 theorem tblLoop_rt (legacy : Bool) (s : List (Str × PyVal))
